@@ -187,3 +187,8 @@ OBLIGATIONS += [dict(o, id='C04.7') for o in _C18OBS if o['id'] == 'C18.early']
 
 from harness.coupload import OB_PROTO, protocol_fixed  # noqa: E402
 OBLIGATIONS += [dict(OB_PROTO, id='C04.8', tier='thorough', cases_thorough=OB_PROTO['cases'], splits_thorough=OB_PROTO['splits'])]
+
+from harness.c07 import OBLIGATIONS as _C07OBS, cancel_run  # noqa: E402
+# termination under a cancel landing inside any environment call (incl. HeadObject while the submission loop runs)
+OBLIGATIONS += [dict(o, id='C04.9-' + o['id'].split('point-')[1]) for o in _C07OBS
+                if o['id'] in ('C07.point-down-path', 'C07.point-up-path', 'C07.point-down-stream')]
